@@ -768,6 +768,31 @@ func (e *Engine) solveAll(obls []*Obl) {
 					o.Result.Raw = "call site unreachable (dead code): not a vacuity problem"
 				}
 			}
+			if o.coverUndecided() {
+				// quantified hypotheses defeat model finding: at least the quantifier-free part must be consistent
+				g := runQuery(e.outDir+"/smt", o.Name+".ground", o.relaxedQuery(), to, false, e.seed)
+				if g.Status == "sat" {
+					o.Result.Status = "sat"
+					o.Result.Solver = g.Solver + "/ground"
+					o.Result.Raw = "quantifier-free part of the hypotheses is satisfiable (full query undecided)"
+				} else if g.Status == "unsat" {
+					o.Result.Status = "unsat"
+					o.Result.Solver = g.Solver + "/ground"
+					o.Result.Raw = "quantifier-free part of the hypotheses is already contradictory"
+					if len(o.PreInsts) > 0 {
+						post := o.Insts
+						o.Insts = o.PreInsts
+						pre := runQuery(e.outDir+"/smt", o.Name+".pre", o.query(), to, o.Quant, e.seed)
+						o.Insts = post
+						if pre.Status == "unsat" {
+							o.Result.Status = "dead"
+							o.Result.Raw = "call site unreachable (dead code): not a vacuity problem"
+						} else if pre.Status != "sat" {
+							o.Result.Status = "unknown"
+						}
+					}
+				}
+			}
 		}()
 	}
 	wg.Wait()
